@@ -21,9 +21,6 @@ Threads run one of four programs:
 * `getLoop`            — `while True: received.append(q.get())` until `get` raises;
 * `batchLoop max block`— `while True: received.extend(q.get_batch(max, block=block))` until it raises
                          (this is `DequeueIterator` when `max` is the queue's max batch size);
-* `batchKeep max`      — the same loop over `q.get_batch(max, block=True, keep_partial=True)` (repair of
-                         finding F7, used by the prefetching server): a call that meets the enqueuer's
-                         exception returns the elements it already dequeued instead of dropping them;
 * `stopper exc`        — one call of `maybe_stop(exc)` (`none` = no exception = `StopIteration`).
 -/
 namespace MlModel.Queue
@@ -50,7 +47,6 @@ inductive Prog where
   | producer (src : List Item) (ret : Nat)
   | getLoop
   | batchLoop (max : Nat) (block : Bool)
-  | batchKeep (max : Nat)
   | stopper (exc : Option ErrKind)
   deriving DecidableEq, Repr, Inhabited
 
@@ -125,6 +121,10 @@ structure Shared where
   /-- is `timeout` configured (not None)? -/
   timeout : Bool := false
   ignoreError : Bool := false
+  /-- do the `get_batch` callers of this queue pass `keep_partial=True` (repair of finding F7)?  In the
+  code this is an argument of the call; the only caller that passes it is the prefetching server's
+  `_next_batch`, which is the only consumer of its queue, so the model keeps it per queue. -/
+  keepPartial : Bool := false
   /-- ghost: every value successfully put, in put order -/
   produced : List Elem := []
   /-- ghost: every value taken out of the queue, in dequeue order -/
@@ -246,12 +246,8 @@ def putLoop (s : Shared) (t : Thread) : Shared × Thread :=
 def batchLoop (max : Nat) (s : Shared) (t : Thread) : Shared × Thread :=
   if t.result.length < max then (s, { t with pc := .nAcq .batch }) else (s, { t with pc := .bExit })
 
-def Thread.batchMax (t : Thread) : Nat :=
-  match t.prog with | .batchLoop m _ => m | .batchKeep m => m | _ => 0
-def Thread.batchBlock (t : Thread) : Bool :=
-  match t.prog with | .batchLoop _ b => b | .batchKeep _ => true | _ => false
-/-- `keep_partial` of the `get_batch` calls of this thread -/
-def Thread.batchKeep (t : Thread) : Bool := match t.prog with | .batchKeep _ => true | _ => false
+def Thread.batchMax (t : Thread) : Nat := match t.prog with | .batchLoop m _ => m | _ => 0
+def Thread.batchBlock (t : Thread) : Bool := match t.prog with | .batchLoop _ b => b | _ => false
 
 /-- what the caller of `get_nowait` does with an exception `x` -/
 def afterRaise (c : Caller) (x : Raise) (s : Shared) (t : Thread) : Shared × Thread :=
@@ -274,7 +270,7 @@ def afterRaise (c : Caller) (x : Raise) (s : Shared) (t : Thread) : Shared × Th
     | .err _ =>
       if s.ignoreError then (s, { t with pc := .bExit })
       -- `if keep_partial and result and self._exhausted: break` (repair of finding F7)
-      else if t.batchKeep && !t.result.isEmpty && s.exhausted then (s, { t with pc := .bExit })
+      else if s.keepPartial && !t.result.isEmpty && s.exhausted then (s, { t with pc := .bExit })
       else (s, { t with pc := .bRaise, x := x })
 
 /-- what the caller of `get_nowait` does with a value -/
@@ -294,7 +290,6 @@ def stepThread (s : Shared) (t : Thread) (tid : Tid) (alt : Bool) : StepResult :
     | .producer src _ => some ("start", s, { t with pc := .sAcq, src := src })
     | .getLoop => some ("start", s, { t with pc := .gAcq })
     | .batchLoop _ _ => some ("start", s, { t with pc := .bAcq })
-    | .batchKeep _ => some ("start", s, { t with pc := .bAcq })
     | .stopper _ => some ("start", s, { t with pc := .mAcq })
   -- ---------------------------------------------------------------- get_nowait
   | .nAcq c => if alt then none else acquire s t tid .st (goto (.nGet c))
